@@ -1,18 +1,38 @@
 """C04 -- the critical path is the longest latency-weighted dependency chain.
 Theorems: Props/C04.v (cp_opt bounds every chain, >= every single latency; exact rationals).
+T: tools/gen_lcd.py regenerates Gallina from the CURRENT get_critical_path (sink graph with merged load-stage edges, path fix-up,
+   per-line latency_cp, sum / fall-back; dag_longest_path and is_directed_acyclic_graph are parameters); PropsGen/C04gen.v proves it
+   equal to the functional reading for every input and restates the theorems; the regenerated definition is evaluated by Coq
+   (binary64) on the recorded real runs: returned objects, every latency_cp and the graph handed to dag_longest_path, bit for bit.
 X: certificate check in Coq (reported lines linked by model edges, cells = edge latencies / last latency, sum = cp_opt).
 Search: brute-force enumeration of all chains of the implementation's own graph."""
+import c04_family
 import depcheck
 import deps
+import lcd_gen
+
+GEN_FILES = ["KdgNode.v", "KdgCrit.v"]
 
 FINISH = dict(level="proof",
               rule="as C03 plus kernels built to stress the critical path: zero-latency forms, chains ending in a high-latency instruction, "
                    "chains starting with a load, ties, dependency-free kernels; shipped kernels x models; non-trivial = kernel with >= 1 edge")
 
 
+def record(ctx, recs, kernel, dg):
+    """one more run of the real get_critical_path, dag_longest_path wrapped, for the translator cross-check"""
+    try:
+        recs.append(lcd_gen.record_cp(kernel, dg))
+    except Exception as e:  # noqa
+        ctx.coverage.setdefault("translated_cp_runs_not_recorded", []).append(repr(e)[:200])
+
+
 def run(ctx):
     depcheck.prepare(ctx, "Props/C04.v")
-    cases = []
+    ctx.trusted += ["translator tools/gen_lcd.py (on tools/gen_c01.py + tools/py2coq.py; fail-closed; cross-checked against CPython on every recorded run) "
+                    "and its prelude Model/PyLcd.v: graph node = Line n | Load n (n + 0.1), nx.DiGraph as a container = nodes and successors in "
+                    "insertion order, the objects of self.kernel are pairwise distinct (a heap of records)",
+                    "networkx dag_longest_path / is_directed_acyclic_graph are parameters of the translated definition"]
+    cases, recs = [], []
     for case, kernel, dg, isa, gl, pipe in depcheck.synthetic(ctx, ctx.n(140, 2500), maxlen=12):
         ctx.count()
         if case["edges"]:
@@ -21,14 +41,48 @@ def run(ctx):
         if len(cases) < 2:
             ctx.sample({"kernel": case["text"], "cp_cells": case["cp"]})
         cases.append(case)
+        record(ctx, recs, kernel, dg)
     depcheck.run_shards(ctx, cases, "synthetic")
-    real = []
+    real, rrecs = [], []
     for case, kernel, dg, isa, gl, pipe in depcheck.real(ctx, ctx.n(10, 250), fast_only=ctx.tier == "quick"):
         ctx.count()
         ctx.nontriv(case["origin"])
         depcheck.cp_oracle(ctx, case)
         real.append(case)
+        record(ctx, rrecs, kernel, dg)
+    # the load stage of a critical path, made certain rather than probable: read-modify-write without own memory form + reload of the
+    # same location + a competing chain sized between the right and a wrong weight of the folded load-stage edge (harness/c04_family.py)
+    fam, frecs = [], []
+    for name, case, kernel, dg, isa in c04_family.cases(ctx):
+        ctx.count()
+        ctx.nontriv((case["text"], case["db"]["arch_yaml"]))
+        depcheck.cp_oracle(ctx, case)
+        fam.append(case)
+        record(ctx, frecs, kernel, dg)
+    ctx.coverage["load_stage_family"] = {"kernels": len(fam), "with_load_node_on_the_critical_path": sum(
+        1 for c in fam if c["cp"] and any(l["loadnode"] and l["no"] == c["cp"][0][0] for l in c["lines"]) and len(c["cp"]) > 1)}
+    depcheck.run_shards(ctx, fam, "loadstage")
+    lcd_gen.tie(ctx, GEN_FILES, "PropsGen/C04gen.v",
+                lambda: (lcd_gen.run_cp_shards(ctx, recs, "synthetic"), lcd_gen.run_cp_shards(ctx, rrecs, "real", size=4),
+                         lcd_gen.run_cp_shards(ctx, frecs, "loadstage")))
     depcheck.run_shards(ctx, real, "real", size=2)
+    escalate(ctx)
+
+
+def escalate(ctx):
+    """A proof obligation is broken (the translation of get_critical_path failed closed, a theorem about it no longer checks, or model
+    and implementation disagree) and no concrete failing input has been found yet: search with a several times larger budget."""
+    if not ctx.broken() or any(not v["known"] for v in ctx.violations):
+        return
+    n = 6 * ctx.n(140, 600)
+    ctx.log("broken obligation without a failing input so far: %d more synthetic kernels through the brute-force chain oracle" % n)
+    done = 0
+    while done < n and not any(not v["known"] for v in ctx.violations):
+        for case, kernel, dg, isa, gl, pipe in depcheck.synthetic(ctx, 60, maxlen=12):
+            ctx.count()
+            depcheck.cp_oracle(ctx, case)
+        done += 60
+    ctx.coverage["escalated_search_kernels"] = done
 
 
 def replay(ctx, obj):
